@@ -54,7 +54,7 @@ Structure(m, a) == [nq |-> NQ(m), nv |-> NV(m), types |-> LinkTypes(m), parents 
 Rejects(i) == i.kind # "none"
 
 Init ==
-  /\ \E n \in 1..MaxLinks : \E g \in RandomSubset(NModels, [1..(n * GW + 10) -> GeneVals]) :
+  /\ \E n \in 1..MaxLinks : \E g \in GenomesK(NModels, n * GW + 10) :
        /\ model = DecodeModel(g, n)
        /\ acts = ActsOf(model, [k \in 1..10 |-> g[n * GW + k]])
   /\ \E k \in (IF OnlyClean THEN {"none"} ELSE Kinds) : \E s \in Sites(model, acts, k) : inj = [kind |-> k, site |-> s]
